@@ -89,7 +89,7 @@ pub fn packet_sweep(prop: &str, a: &Args, st: &mut Stats) {
         for _ in 0..40 { let r = rng.bytes(4); samples.push([r[0], r[1], r[2], r[3] | 1]); let r = rng.bytes(3); samples.push([b'0' + r[0] % 10, b'A' + r[1] % 26, b'a' + r[2] % 26, 0]); }
         let mut nslots = 0u64;
         for compressed in [true, false] { for k in KINDS.iter() {
-            let Some((f, _)) = gen_frame(&mut rng, k, compressed, 0, Some(2)) else { continue };
+            let Some(f) = crate::wire::stable_frame(&mut rng, k, compressed, Some(2)) else { continue };
             let mut slots: Vec<(usize, String)> = vec![]; let mut off = 2;
             for (name, at) in k.fixed { if matches!(at, Atom::Custom(Custom::Vehicle, _)) { slots.push((off, name.to_string())); } off += width(at); }
             if let Tail::Vec { elt, .. } = k.tail { let ew = fixed_width(elt); let mut eo = 0; for (name, at) in elt { if matches!(at, Atom::Custom(Custom::Vehicle, _)) { for e in 0..2 { slots.push((2 + fixed_width(k.fixed) + e * ew + eo, format!("[{e}].{name}"))); } } eo += width(at); } }
@@ -131,6 +131,7 @@ pub fn packet_sweep(prop: &str, a: &Args, st: &mut Stats) {
 }
 
 pub fn run(a: &Args) {
+    if let Some(r) = &a.replay { if r.starts_with("eq ") { println!("UNSUPPORTED-REPLAY"); std::process::exit(3); } }
     if let Some(r) = &a.replay { if let Some(rest) = r.strip_prefix("malframe ") {
         let t: Vec<&str> = rest.split_whitespace().collect(); let compressed = t[0] == "C"; let f = unhex(t[1]);
         let ok = match crate::wire::decode_buf(compressed, &f) { crate::wire::Dec::Got(insim::Packet::Mal(m), _) => { let n = f[3] as usize; let all = (0..n).all(|i| m.contains(&Vehicle::Mod(u32::from_le_bytes([f[8 + 4 * i], f[9 + 4 * i], f[10 + 4 * i], f[11 + 4 * i]])))); let same = matches!(crate::wire::encode_p(compressed, &insim::Packet::Mal(m.clone())), crate::wire::Enc::Ok(e) if e == f); println!("decoded {} entries, all listed ids present as mods: {all}, identical re-encoding: {same}", m.len()); all && same && m.len() == n }, d => { println!("decoder outcome {}", crate::wire::cls_string(&d)); false } };
@@ -195,6 +196,23 @@ pub fn run(a: &Args) {
         st.exhaustive.push("all 2^32 wire values (implementation oracle)".into());
     }
     packet_sweep("C13", a, &mut st);
+    // mods and built-ins are never confused as VALUES either: a mod whose id bytes spell a car name is not that car, mod id 0 is not
+    // "unknown", and sets / maps keep them apart
+    {
+        use std::collections::HashSet;
+        let builtins: Vec<Vehicle> = CARS.iter().map(|c| { let b = c.as_bytes(); read([b[0], b[1], b[2], 0]).1.expect("built-in decodes") }).collect();
+        for (i, v) in builtins.iter().enumerate() {
+            let b = CARS[i].as_bytes(); let m = Vehicle::Mod(u32::from_le_bytes([b[0], b[1], b[2], 0]));
+            st.evaluations += 1;
+            if *v == m || m == *v { st.fail(format!("[C13] the mod with id {:#010x} compares equal to the built-in {}", u32::from_le_bytes([b[0], b[1], b[2], 0]), CARS[i]), format!("eq {i}")); }
+            let mut hs: HashSet<Vehicle> = HashSet::new(); let _ = hs.insert(v.clone()); let _ = hs.insert(m.clone());
+            if hs.len() != 2 || !hs.contains(&m) || !hs.contains(v) { st.fail(format!("[C13] a set holding the built-in {} and the mod with the same bytes has {} element(s)", CARS[i], hs.len()), format!("eq {i}")); }
+            for (j, w) in builtins.iter().enumerate() { if (i == j) != (v == w) { st.fail(format!("[C13] built-ins {} and {} compare {}", CARS[i], CARS[j], v == w), format!("eq {i}")); } }
+        }
+        let unknown = read([0; 4]).1.expect("zeros decode");
+        if unknown == Vehicle::Mod(0) { st.fail("[C13] the mod with id 0 compares equal to the unknown vehicle".into(), "eq unknown".into()); }
+        if Vehicle::Mod(7) != Vehicle::Mod(7) || Vehicle::Mod(7) == Vehicle::Mod(8) { st.fail("[C13] mod ids do not compare by value".into(), "eq mods".into()); }
+    }
     st.distinct_nontrivial = nontrivial;
     st.rule = "4-byte values: all 62^3 alnum names + 17^4 boundary grid + every single-byte neighbour of each built-in name + seeded random words; distinct inputs counted, non-trivial = last byte 0 (zero / built-in-shaped / near-shaped), i.e. not a plain mod id".into();
     for s in ["58464700", "00000000", "41414100", "01020304", "58525401"] { let b = unhex(s); st.sample(format!("{} -> {}", s, read([b[0], b[1], b[2], b[3]]).0.show())); }
